@@ -605,6 +605,60 @@ func ruleC12FailedCreationDisarms(c *Ctx) {
 			}
 		})
 	}
+	// the same obligation from the arming point itself: once runtime.SetFinalizer(x, f) has armed an object, every error
+	// return that follows (in the arming function) disarms it or marks the secret closed — a finalizer armed before the
+	// last step that can fail (mlock) outlives a failed creation whose pages were already given back
+	for _, f := range u.RepoFuncs {
+		if f.Pkg == nil || (f.Pkg.Pkg.Path() != pkgProt && f.Pkg.Pkg.Path() != pkgMemg) || f.Blocks == nil || f.Parent() != nil {
+			continue
+		}
+		allInstrs(f, func(i ssa.Instruction) {
+			cv, ok := i.(*ssa.Call)
+			if !ok {
+				return
+			}
+			if g := staticCallee(cv); g == nil || funcFullName(g) != "runtime.SetFinalizer" || isNilValue(cv.Call.Args[1]) {
+				return
+			}
+			c.FuncsAnalysed[shortName(f)] = true
+			armed := 0
+			for _, r := range returnsOf(f) {
+				if len(r.Results) == 0 || !isErrorType(r.Results[len(r.Results)-1].Type()) || isNilValue(returnedValue(r, len(r.Results)-1)) || !reaches(cv, r) {
+					continue
+				}
+				armed++
+				found, tr := pathSearch(cv, func(j ssa.Instruction) pathAction {
+					if j == ssa.Instruction(r) {
+						return pathFound
+					}
+					if call, isCall := j.(*ssa.Call); isCall {
+						if h := staticCallee(call); h != nil {
+							if marksClosed(h) || (funcFullName(h) == "runtime.SetFinalizer" && isNilValue(call.Call.Args[1])) {
+								return pathStop
+							}
+						}
+					}
+					if st, isS := j.(*ssa.Store); isS {
+						if fa, isF := st.Addr.(*ssa.FieldAddr); isF && fieldName(fa.X.Type(), fa.Field) == "closed" {
+							if k, isC := constOf(st.Val); isC && k.ExactString() == "true" {
+								return pathStop
+							}
+						}
+					}
+					return pathContinue
+				}, nil)
+				construct := trimPkgDirs(shortName(f)) + "/error-return-after-arming"
+				if found {
+					c.bad(construct, u.ipos(r), "the finalizer is armed before a step that can still fail, and this error return leaves it armed on a secret whose pages the failure path has released: the garbage collector later runs the whole Close sequence (Protect, wipe, Unlock, Free, InUseCounter.Dec) on an address range that is unmapped or already belongs to another secret", u.tracePositions(tr)...)
+				} else {
+					c.ok(construct, u.ipos(r), "disarmed / marked closed before the error return")
+				}
+			}
+			if armed == 0 {
+				c.ok(trimPkgDirs(shortName(f))+"/armed-last", u.ipos(i), "no error return follows the arming of the finalizer")
+			}
+		})
+	}
 	if n < 3 {
 		c.bad("protectedmemory/creation-error-returns", "", fmt.Sprintf("expected at least 3 error returns after a successful newSecret (New, createRandom ×2), found %d", n))
 	}
